@@ -50,6 +50,8 @@ structure InvG (R : Nat → Sess → String → Prop) (orph : List Nat) (h : Hub
   count : ∀ b s, s ∈ h.count b → ∃ x, h.sess s = some x ∧ x.backend = b ∧ x.kind = .client
   -- the relaxation: orphans are virtual sessions
   orph_virt : ∀ v, v ∈ orph → ∀ y, h.sess v = some y → y.kind = .virtual
+  -- a room's in-call set holds members only (C07: nothing stays behind)
+  incall : ∀ b r rm s, h.rooms b r = some rm → s ∈ rm.inCall → s ∈ rm.members
 
 /-- The invariant proper: no relaxation of `room_mem`. -/
 notation "InvX" => InvG (fun _ _ _ => False)
@@ -121,6 +123,7 @@ theorem InvG.congr {R : Nat → Sess → String → Prop} {orph : List Nat} {h h
   · intro s h1; have := hi.dialout s; have := es s; grind
   · intro b s h1; have := hi.count b s; have := es s; grind
   · intro v hv y hy; have := hi.orph_virt v hv; have := es v; grind
+  · intro b r rm s h1 h2; have := hi.incall b r rm s; grind
 
 end SigModel.Hub
 
